@@ -6,6 +6,7 @@ import (
 	"io"
 	"regexp"
 	"sync"
+	"sync/atomic"
 	"time"
 
 	"github.com/scrapli/scrapligo/logging"
@@ -113,7 +114,7 @@ type Channel struct {
 
 	Q              *util.Queue
 	Errs           chan error
-	readLoopExited bool
+	readLoopExited atomic.Bool
 
 	ChannelLog io.Writer
 }
